@@ -287,6 +287,8 @@ def thresholds(draw, pts, metric, candidates=None):
     library primitive), so that the `<` / `>=` boundary is hit."""
     mode = draw(st.sampled_from(['std', 'occurring', 'occurring', 'float']))
     hi = 1.0 if metric == 'r2' else 3.0
+    if metric == 'r2' and draw(st.integers(0, 7)) == 0:
+        return 1.0                     # the top of R2's range (lossless simplification) is a boundary of its own
     if mode == 'occurring':
         cands = list(candidates) if candidates is not None else occurring_costs(pts, metric, draw)
         cands = [c for c in cands if isinstance(c, float) and math.isfinite(c) and 0 < c <= hi]
